@@ -449,7 +449,11 @@ def rewrite_fn(text, contract, report, make_pub=True):
         if pos < 0:
             raise ExtractError(f"lost anchor in {contract['name']}: {anchor!r}")
         p = pos if where_ == "before" else pos + len(anchor)
-        edits.append(Edit(p, p, " proof { " + ghost.strip() + " } ", "R5"))
+        g = ghost.strip()
+        if g.startswith("raw:"):
+            edits.append(Edit(p, p, " " + g[4:].strip() + " ", "R5"))
+        else:
+            edits.append(Edit(p, p, " proof { " + g + " } ", "R5"))
     if contract.get("stub"):
         # assumed contract: the real signature is kept, the body is not verified
         edits = [e for e in edits if e.end <= st[body_open].start]
